@@ -416,7 +416,7 @@ def loop_depth(body, bb, loops=None):
     return len(heads)
 
 
-def bool_sim(body, atom_value, max_states=20000, start=0, env0=None):
+def bool_sim(body, atom_value, max_states=20000, start=0, env0=None, returns=None):
     """Which blocks can be reached when the comparison statements listed in `atom_value` ({(block, statement index): bool}, or
     {("call", block): bool} for the result of a boolean call) have the given outcomes?  A tiny path-sensitive interpreter over the boolean part of the MIR: it tracks locals holding known
     booleans through copies, `!`, `&` / `|` and the control flow of `&&` / `||`, follows a `switchInt` whose operand is known
@@ -494,6 +494,8 @@ def bool_sim(body, atom_value, max_states=20000, start=0, env0=None):
             nxt = [x for x in succs(blk) if not blocks[x].get("cleanup")]
         else:
             nxt = [x for x in succs(blk) if not blocks[x].get("cleanup")]
+        if returns is not None and t["k"] == "return":
+            returns.add(env.get(0))          # value of the return place if it is a known boolean (else None)
         frozen = tuple(sorted(env.items()))
         for x in nxt:
             work.append((x, frozen))
@@ -549,3 +551,26 @@ def decided_by(b, defs, dom, lookup_bb, target_bb):
         if any(s != target_bb and target_bb not in reachable_from(b, s, stop={lookup_bb}) for s in succs(blk)):
             return True
     return False
+
+
+def ok_exits(body, variant="Ok"):
+    """Blocks in which `Ok(..)` (or the given variant of a Result/Option) is written to the return place."""
+    return [bi for bi, blk in enumerate(body.blocks) for st in blk["stmts"]
+            if st["k"] == "assign" and st["p"] == [0] and st["rv"]["k"] == "agg" and st["rv"].get("variant") == variant]
+
+
+def vacant_only_insertions(body, defs=None, dom=None):
+    """Call blocks that put a NEW key into a map: VacantEntry::insert (vacant by construction), or a map `insert` that is decided by a
+    preceding lookup of the same map (contains_key / get / entry)."""
+    defs = defs or Defs(body)
+    dom = dom or dominators(body)
+    out = []
+    lookups = [bi for bi, t in calls(body) if (callee_def(t) or "").split("::")[-1] in ("contains_key", "get", "get_mut", "entry", "get_key_value")]
+    for bi, t in calls(body):
+        d = callee_def(t) or ""
+        if d.endswith("VacantEntry::<'a, K, V, A>::insert") or "VacantEntry" in d and d.endswith("::insert"):
+            out.append(bi)
+        elif d.split("::")[-1] == "insert" and ("Map" in d):
+            if any(lb in dom[bi] and decided_by(body, defs, dom, lb, bi) for lb in lookups):
+                out.append(bi)
+    return out
